@@ -22,7 +22,8 @@ func init() {
 		Rule: "real DefaultWorkerPool over a real BufferedChannelQueue (spawn loop, workers, loader, expiry/jam/retry timers on the fake clock); 1..3 submitter threads issue bursts/trickles of Schedule, " +
 			"ScheduleWithTimeout, Invoke, InvokeWithTimeout; jobs are quick, slow (virtual sleep) or panicking (faults drawn from the tape); configurations drawn within the property's quantifier; " +
 			"fair settle phase with the pool left open; oracles: rejected never runs, at-most-once, exactly-once by the fair horizon, gauge <= workerSizeMaximum, panic-handler log, error necessity, post-close error; " +
-			"non-trivial = >=2 jobs accepted and (a job panicked or two jobs overlapped or a queue-full error was seen); distinct = distinct context-switch signature",
+			"non-trivial = >=2 jobs accepted and (a job panicked or two jobs overlapped or a queue-full error was seen); distinct = distinct context-switch signature" +
+			" Faults/flavours added later: panic handler replaced through SetPanicHandler while workers exist, a panic handler that blocks until the other jobs ran, batch and stand-by sizes retuned at run time, jobs that schedule children, Invokables re-targeted right after the call, sibling pool, four construction paths.",
 		Real: []string{"worker.DefaultWorkerPool (spawnLoop, trySpawn, workers)", "worker.DefaultInvokable", "fpgo.BufferedChannelQueue job queue", "timers on the fake clock"},
 		Stub: []string{"goroutine scheduler", "clock", "sync.Pool", "job bodies (harness closures)"},
 	})
